@@ -661,7 +661,7 @@ type SharedPlan struct {
 }
 
 func genShared(t *rapid.T) SharedPlan {
-	return SharedPlan{Arity: rapid.SampledFrom([]int{1, 2, 2, 2, 3, 4, 5}).Draw(t, "arity"), Buf: rapid.SampledFrom([]int{1, 2, 4, 8}).Draw(t, "buf"),
+	return SharedPlan{Arity: rapid.SampledFrom([]int{1, 2, 2, 2, 2, 2, 3, 4, 5}).Draw(t, "arity"), Buf: rapid.SampledFrom([]int{1, 2, 4, 8}).Draw(t, "buf"),
 		N: rapid.IntRange(1, 12).Draw(t, "n"), Rounds: rapid.IntRange(50, 200).Draw(t, "rounds")}
 }
 
@@ -734,7 +734,7 @@ func runShared(p SharedPlan) (vk.Outcome, error) {
 
 func TestChansMergeSharedInput(t *testing.T) {
 	theT = t
-	vk.Run(t, suite, "chans-merge-shared", 60, genShared, runShared)
+	vk.Run(t, suite, "chans-merge-shared", 150, genShared, runShared)
 }
 
 // ---------------------------------------------------------------- stream.Merge: which error wins when an input fails
